@@ -10,6 +10,11 @@ CHECKS = {
    text="Every operation sequence over {ChainBuffer k bytes, ChainWrite k-byte slice, Flush} up to the stated length, with every sink failure budget, is executed symbolically on the real Writer/net.Buffers code with all byte contents symbolic; the delivered bytes are asserted equal to the concatenation model after every flush. Exhaustive over histories within the bound, for all byte values.",
    ref="DESIGN.md §4 C14",
    note="bounds: ops<=3 (quick) / 4 (thorough), 0..3 bytes per op, sink budget -1..4; engine fidelity checked by native witness replays; append growth policy fixed (double); preemption not modelled (Writer is single-owner)"),
+ "C17": dict(
+   level="model_checking",
+   text="Each message's real EncodeAware/DecodeAware pair is executed symbolically with the protocol revision as ONE symbolic int (so every revision, hence both sides of every threshold, is covered by the version-comparison forks) and all field values symbolic; per path the solver decides (a) encoded bytes == bytes of an independent reference encoder with its own threshold table, (b) decode(encode(x)) == x with the fields absent at that revision zero, (c) the reader is exactly exhausted.",
+   ref="DESIGN.md §4 C17",
+   note="bounds: integers all <128 plus each integer field alone over its full 64-bit range (quick: first field only for Query); strings of tied length 0..1/2 with free contents; <=1 setting and <=1 parameter (quick); OpenTelemetry span invalid (otel stubbed); Query decode below 54429 is rejected by design and not asserted; the reference encoder is trusted as the oracle (written from the protocol description, thresholds cross-checked once)"),
 }
 
 NA = {
